@@ -3413,8 +3413,16 @@ static void scan_globals(void) {
     // Find another definition of the same identifier.
     Obj *var2 = globals;
     for (; var2; var2 = var2->next)
-      if (var != var2 && var2->is_definition && !strcmp(var->name, var2->name))
+      if (var != var2 && var2->is_definition && !var2->is_tentative &&
+          !strcmp(var->name, var2->name))
         break;
+
+    // Of several tentative definitions, the one declared first (the
+    // last one in the list) is kept.
+    if (!var2)
+      for (var2 = var->next; var2; var2 = var2->next)
+        if (var2->is_tentative && !strcmp(var->name, var2->name))
+          break;
 
     // If there's another definition, the tentative definition
     // is redundant
